@@ -187,25 +187,22 @@ func verifCheckEquivalent(p url.Parser, x, y string) {
 }
 
 // VerifC18EquivWeb: GoogleSafeBrowsing, Semantic and a repeated-decoding profile map equivalent
-// spellings to the same string. Quick: all pairs of variation kinds; thorough (C18.AllSubsets=1):
-// every subset of the nine kinds, one variant each.
+// spellings to the same string. Quick: all pairs of variation kinds; thorough: all triples, every variant each.
 func VerifC18EquivWeb() {
 	profs := []url.Parser{GoogleSafeBrowsing, Semantic, New(WithRepeatedPercentDecoding(), WithRemoveFragment()), New(WithRepeatedPercentDecoding())}
 	pi := vnd.Pick(len(profs))
 	b, si := symbolicBase()
 	var v variation
-	if vnd.Param("C18.AllSubsets", 0, 1) == 1 {
-		for k := 0; k < 9; k++ {
-			v.set(k, vnd.Pick(nVariants[k]+1))
+	// quick: every pair of kinds; thorough: every triple of kinds (each with every variant)
+	nk := vnd.Param("C18.Kinds", 2, 3)
+	last := -1
+	for i := 0; i < nk; i++ {
+		k := vnd.Pick(9)
+		vnd.Assume(k >= last)
+		if k != last {
+			v.set(k, 1+vnd.Pick(nVariants[k]))
 		}
-	} else {
-		k1 := vnd.Pick(9)
-		k2 := vnd.Pick(9)
-		vnd.Assume(k1 <= k2)
-		v.set(k1, 1+vnd.Pick(nVariants[k1]))
-		if k2 != k1 {
-			v.set(k2, 1+vnd.Pick(nVariants[k2]))
-		}
+		last = k
 	}
 	// the empty-fragment variation is asserted only for profiles that remove the fragment (DESIGN §6 C18)
 	if pi == 3 {
@@ -246,18 +243,15 @@ func VerifC18EquivSpec() {
 	b, si := symbolicBase()
 	var v variation
 	specKinds := []int{0, 1, 4, 5, 6, 7}
-	if vnd.Param("C18.AllSubsets", 0, 1) == 1 {
-		for _, k := range specKinds {
-			v.set(k, vnd.Pick(nVariants[k]+1))
+	nk := vnd.Param("C18.SpecKinds", 2, 3)
+	last := -1
+	for i := 0; i < nk; i++ {
+		j := vnd.Pick(len(specKinds))
+		vnd.Assume(j >= last)
+		if j != last {
+			v.set(specKinds[j], 1+vnd.Pick(nVariants[specKinds[j]]))
 		}
-	} else {
-		i1 := vnd.Pick(len(specKinds))
-		i2 := vnd.Pick(len(specKinds))
-		vnd.Assume(i1 <= i2)
-		v.set(specKinds[i1], 1+vnd.Pick(nVariants[specKinds[i1]]))
-		if i2 != i1 {
-			v.set(specKinds[i2], 1+vnd.Pick(nVariants[specKinds[i2]]))
-		}
+		last = j
 	}
 	if v.port == 1 {
 		// ':' with an empty port is normalised by the standard as well
